@@ -627,5 +627,24 @@ pub fn generate(tier: &str, seed: u64, out: &mut Out) {
             file_no += 1;
         }
     }
+    // repeated byte order marks: exactly one BOM is the file's, the others are text; every delivery
+    // path (from_str included) must agree with from_bytes on that
+    for (k, (name, text)) in texts(&mut r, 6).into_iter().enumerate() {
+        if text.len() > 4000 {
+            continue;
+        }
+        for nbom in [2usize, 3] {
+            let mut data: Vec<u8> = vec![];
+            for _ in 0..nbom {
+                data.extend_from_slice(&[0xEF, 0xBB, 0xBF]);
+            }
+            data.extend_from_slice(text.as_bytes());
+            let reference = decode_bytes(&data);
+            out.count("file.repeated_bom");
+            other_paths(out, &format!("{name}+{nbom}xBOM"), 0, &data, &reference, file_no);
+            file_no += 1;
+            one(out, "repeated-bom", 0, &data, &fixed_sched(3 + k, data.len()), &reference, true);
+        }
+    }
     let _ = std::fs::remove_dir(work_dir().join("tmp"));
 }
